@@ -262,7 +262,7 @@ impl<W: io::Write> WriteExt for GuardWindowWriter<W> {
 // guarded source strings
 
 const SLOTS: usize = 96;
-const SLOT_DATA_PAGES: usize = 2;
+const SLOT_DATA_PAGES: usize = 6;
 static SLOT_BASE: AtomicUsize = AtomicUsize::new(0);
 static SLOT_NEXT: AtomicUsize = AtomicUsize::new(0);
 
